@@ -4,8 +4,8 @@ from ._generic import make, STD_TRUST
 globals().update(
     make(
         pid="C10",
-        props=["JaqalProofs/Props/C10.lean"],
-        targets=["JaqalProofs.Props.C10"],
+        props=["JaqalProofs/Props/C10.lean", "JaqalProofs/Props/ParsedC10.lean", "JaqalProofs/Props/ParsedEx.lean"],
+        targets=["JaqalProofs.Props.C10", "JaqalProofs.Props.ParsedC10", "JaqalProofs.Props.ParsedEx"],
         diffs=[("harness.agents.c10_diff", 500, 1500), ("harness.agents.c10_scale", 88, 300)],
         trusted=[
             STD_TRUST,
